@@ -171,6 +171,19 @@ func validateDiscriminatorNameCollision(
 		}
 	}
 
+	// Another discriminated oneof of the same message writes its discriminator at the same level
+	for _, other := range message.Oneofs {
+		if other == oneof {
+			continue
+		}
+		if otherConfig := GetOneofConfig(other); otherConfig != nil && otherConfig.GetDiscriminator() == discriminator {
+			return fmt.Errorf(
+				"oneof %s.%s: discriminator name %q collides with the discriminator of oneof %q",
+				message.Desc.Name(), oneof.Desc.Name(), discriminator, other.Desc.Name(),
+			)
+		}
+	}
+
 	return nil
 }
 
